@@ -49,6 +49,37 @@ def tok(s: str) -> str:
     return 'u_' + '_'.join(f'{ord(ch):x}' for ch in s)
 
 
+def kv_line(k: str, v: str) -> str:
+    return '\t"%s" "%s"\n' % (k, v.replace('\\', '\\\\').replace('"', '\\"'))
+
+
+def ent_block(kind: str, eid: int, cls: str, tk: str, name: str, hidden: bool = False) -> str:
+    body = kind + '\n{\n' + kv_line('id', str(eid))
+    if cls:
+        body += kv_line('classname', cls)
+    if tk:
+        body += kv_line(tk, name)
+    body += '}\n'
+    return 'hidden\n{\n' + body + '}\n' if hidden else body
+
+
+def state_document(s: dict, tab: dict, variant: int = 0) -> tuple:
+    """VMF text whose parse is map m1 of the model state s: the world block carries the worldspawn's
+    classname / targetname spelling, every entity that is in m1 follows (some of them hidden)."""
+    home, inmap, spawn, cls, name, tk = s['w1']
+    text = 'versioninfo\n{\n\t"formatversion" "100"\n}\n' + ent_block('world', 1, conc(tab, cls), tk, conc(tab, name))
+    parsed = []
+    for n, x in enumerate(sorted(k for k in s if k not in SPAWN.values())):
+        home, inmap, spawn, cls, name, tk = s[x]
+        if home == 'm1' and inmap:
+            parsed.append(x)
+    # VMF.parse() reads the visible entities and the hidden ones in file order
+    for n, x in enumerate(parsed):
+        home, inmap, spawn, cls, name, tk = s[x]
+        text += ent_block('entity', n + 2, conc(tab, cls), tk, conc(tab, name), hidden=(n + variant) % 2 == 1)
+    return text, parsed
+
+
 class World:
     def __init__(self, slots: list[str]) -> None:
         self.maps = {m: VMF() for m in MAPS}
@@ -135,15 +166,35 @@ class World:
         return {'fold': [list(p) for p in pairs]}
 
     # ------------------------------------------------------------------ construction of a model state
-    def build(self, s: dict, tab: dict) -> None:
-        """s: id -> [home, inmap, spawn, cls, name, tk] (TLC's Pack)."""
+    def build(self, s: dict, tab: dict, how: str = 'api', variant: int = 0) -> str:
+        """s: id -> [home, inmap, spawn, cls, name, tk] (TLC's Pack).
+        how = 'api':   VMF(), Entity(), add_ent()
+        how = 'parse': map m1 comes from VMF.parse() of a document holding its worldspawn (class and
+                       targetname as in s) and its entities; the rest is added through the API.
+        Returns the document text ('' for 'api')."""
+        text = ''
+        parsed: list = []
+        if how == 'parse':
+            text, parsed = state_document(s, tab, variant)
+            vmf = VMF.parse(Keyvalues.parse(text))
+            self.maps['m1'] = vmf
+            self.ents['w1'] = vmf.spawn
+            if len(vmf.entities) != len(parsed):
+                raise SystemExit('MACHINERY: parsed document does not hold the entities written')
+            for x, e in zip(parsed, vmf.entities):
+                self.ents[x] = e
+                self.home[x] = 'm1'
         for x in sorted(s):
             home, inmap, spawn, cls, name, tk = s[x]
             if spawn:
+                if how == 'parse' and home == 'm1':
+                    continue
                 if cls != 'worldspawn':
                     self.ents[x]['classname'] = cls
+                if tk:
+                    self.ents[x][tk] = conc(tab, name)
                 continue
-            if not home:
+            if not home or x in parsed:
                 continue
             keys = {}
             if cls:
@@ -155,6 +206,7 @@ class World:
                 self.maps[home].add_ent(e)
             self.ents[x] = e
             self.home[x] = home
+        return text
 
     # ------------------------------------------------------------------ the calls
     def do(self, a: dict, tab: dict) -> tuple:
@@ -205,6 +257,9 @@ class World:
                 e[a.get('ck', 'classname')] = c(a['v'])
             elif op == 'set_name':
                 e[a['k']] = c(a['v'])
+            elif op == 'setdefault_name':
+                val = ''
+                e.setdefault(a['k'], c(a['v']))
             elif op == 'update':
                 e.update({'classname': c(a['v']), a['k']: c(a['n'])})
             elif op == 'del_name':
@@ -289,7 +344,7 @@ def sig_for(w: World, pre: dict, a: dict, src: str) -> dict:
     return sig
 
 
-def step(w: World, a: dict, tab: dict, src: str, out: hlib.RecWriter, hist=None, state=None) -> None:
+def step(w: World, a: dict, tab: dict, src: str, out: hlib.RecWriter, hist=None, state=None, built=None) -> None:
     pre = w.project()
     sig = sig_for(w, pre, a, src)
     ca = w.conc_action(a, tab)
@@ -315,6 +370,8 @@ def step(w: World, a: dict, tab: dict, src: str, out: hlib.RecWriter, hist=None,
     else:
         rec['state'] = state
         rec['raw'] = a
+    if built is not None:
+        rec['built'] = built
     rec['tab'] = CONCRETE.index(tab) if tab in CONCRETE else tab
     out.write(rec)
 
@@ -323,16 +380,40 @@ def slots_of(s: dict) -> list[str]:
     return sorted(x for x in s if x not in SPAWN.values())
 
 
+def parse_record(w: World, text: str, out: hlib.RecWriter, stats: dict, extra=None) -> None:
+    """The indexes straight after VMF.parse(): judged as a state (no call before it)."""
+    rec = {'k': 'state', 'post': w.project(search=True), 'F': w.fold_table(),
+           'sig': {'kind': 'parse', 'action': 'parse'}, 'doc': text}
+    if extra:
+        rec.update(extra)
+    out.write(rec)
+    stats['parsed_states'] = stats.get('parsed_states', 0) + 1
+
+
 def replay_edges(edge_file: str, out: hlib.RecWriter, part: int, nparts: int, stats: dict) -> None:
+    """Every (state, action): the source state is built on fresh objects - through the API, or (every
+    other edge, and always when the worldspawn is named) by parsing a document that holds it."""
     edges = json.load(open(edge_file))
     seed = hlib.seed()
+    both = hlib.tier() == 'thorough'
+    seen: set = set()
     for n, e in enumerate(edges):
         if n % nparts != part:
             continue
         tab = CONCRETE[(n * 7 + seed) % len(CONCRETE)]
-        w = World(slots_of(e['s']))
-        w.build(e['s'], tab)
-        step(w, e['a'], tab, 'edge', out, state=e['s'])
+        named_spawn = e['s']['w1'][5] != ''
+        hows = ['api', 'parse'] if both else [('parse' if (named_spawn or (n // nparts + seed) % 2) else 'api')]
+        if named_spawn:
+            hows = ['parse']       # a named worldspawn only comes out of a document in good order
+        for how in hows:
+            w = World(slots_of(e['s']))
+            text = w.build(e['s'], tab, how, variant=n)
+            if how == 'parse':
+                key = (json.dumps(e['s'], sort_keys=True), CONCRETE.index(tab), n % 2)
+                if key not in seen:
+                    seen.add(key)
+                    parse_record(w, text, out, stats, {'state': e['s'], 'tab': CONCRETE.index(tab), 'variant': n})
+            step(w, e['a'], tab, 'edge', out, state=e['s'], built=[how, n])
         stats['edges_replayed'] = stats.get('edges_replayed', 0) + 1
 
 
@@ -383,12 +464,31 @@ def consistent(w: World) -> bool:
 
 def random_histories(out: hlib.RecWriter, rng: random.Random, n_hist: int, length: int, stats: dict) -> None:
     slots = [f'e{i}' for i in range(1, 21)]
-    for _ in range(n_hist):
+    for hn in range(n_hist):
         w = World(slots)
         hist: list = []
         easy = rng.random() < 0.5      # histories that stay on all-lower-case keys run longer on this tree
         names = [n for n in NAME_POOL if n == n.casefold() and n] if easy else NAME_POOL
         classes = [c for c in CLASS_POOL if c == c.casefold()] if easy else CLASS_POOL
+        if hn % 2:
+            # the history starts from parsed documents instead of VMF(): world block with a classname
+            # spelling and (often) a targetname, entities with duplicate / case-variant / no names, some hidden
+            docs = {}
+            nxt = 0
+            for m in MAPS if rng.random() < 0.4 else ['m1']:
+                text, n_ents = random_document(rng, names, classes, easy)
+                vmf = VMF.parse(Keyvalues.parse(text))
+                if len(vmf.entities) != n_ents:
+                    raise SystemExit('MACHINERY: parsed document does not hold the entities written')
+                w.maps[m] = vmf
+                w.ents[SPAWN[m]] = vmf.spawn
+                for e in vmf.entities:
+                    w.ents[slots[nxt]] = e
+                    w.home[slots[nxt]] = m
+                    nxt += 1
+                docs[m] = text
+            hist.append({'op': 'parse_docs', 'docs': docs})
+            parse_record(w, json.dumps(docs), out, stats, {'docs': docs})
         for _ in range(length):
             free = [x for x in slots if x not in w.ents]
             live = [x for x in slots if x in w.ents]
@@ -402,11 +502,11 @@ def random_histories(out: hlib.RecWriter, rng: random.Random, n_hist: int, lengt
             if loose:
                 ops += ['add_ent'] * 3 + ['add_ents']
             if live:
-                ops += ['set_class'] * 3 + ['set_name'] * 4 + ['update', 'del_name', 'pop_name', 'make_unique', 'make_unique',
+                ops += ['set_class'] * 3 + ['set_name'] * 4 + ['update', 'del_name', 'pop_name', 'make_unique', 'make_unique', 'setdefault_name',
                                                                 'remove_ent', 'ent_remove', 'del_class', 'iter', 'iter']
                 if not easy:
                     ops += ['clear', 'pop_class']
-            ops += ['spawn']
+            ops += ['spawn'] * 3
             op = rng.choice(ops)
             x = rng.choice(live) if live else None
             k = rng.choice(['targetname'] if easy else KEY_SP)
@@ -425,7 +525,7 @@ def random_histories(out: hlib.RecWriter, rng: random.Random, n_hist: int, lengt
                 a = {'op': 'add_ents', 'xs': xs[:rng.randint(0, 4)]}
             elif op == 'set_class':
                 a = {'op': op, 'x': x, 'v': rng.choice(classes), 'ck': 'classname' if easy else rng.choice(['classname', 'ClassName', 'CLASSNAME'])}
-            elif op == 'set_name':
+            elif op in ('set_name', 'setdefault_name'):
                 a = {'op': op, 'x': x, 'v': rng.choice(names if easy else names + ['']), 'k': k}
             elif op == 'update':
                 a = {'op': op, 'x': x, 'v': rng.choice(classes), 'n': rng.choice(names), 'k': k}
@@ -437,9 +537,15 @@ def random_histories(out: hlib.RecWriter, rng: random.Random, n_hist: int, lengt
                 a = {'op': op, 'x': x, 'c': ''}
             elif op == 'spawn':
                 sp = rng.choice(['w1', 'w2'])
+                # the worldspawn takes part in every operation family
                 a = rng.choice([{'op': 'set_class', 'x': sp, 'v': rng.choice(['worldspawn', 'WorldSpawn', 'WORLDSPAWN', 'func_brush', ''])},
                                 {'op': 'del_class', 'x': sp}, {'op': 'clear', 'x': sp, 'c': ''},
-                                {'op': 'update', 'x': sp, 'v': 'func_x', 'n': 'named', 'k': 'targetname'}]
+                                {'op': 'update', 'x': sp, 'v': 'func_x', 'n': 'named', 'k': 'targetname'},
+                                {'op': 'update', 'x': sp, 'v': rng.choice(['worldspawn', 'WorldSpawn']), 'n': rng.choice(names), 'k': k},
+                                {'op': 'set_name', 'x': sp, 'v': rng.choice(names + ['']), 'k': k},
+                                {'op': 'setdefault_name', 'x': sp, 'v': rng.choice(names), 'k': k},
+                                {'op': 'del_name', 'x': sp, 'k': k}, {'op': 'pop_name', 'x': sp},
+                                {'op': 'make_unique', 'x': sp, 'prefix': rng.choice(['', 'world'])}]
                                + ([] if easy else [{'op': 'pop_class', 'x': sp}]))
             elif op == 'iter':
                 tgt = rng.choice(inmap) if inmap else x
@@ -462,28 +568,73 @@ def random_histories(out: hlib.RecWriter, rng: random.Random, n_hist: int, lengt
                 break
 
 
+def random_document(rng: random.Random, names: list, classes: list, easy: bool) -> tuple:
+    """-> (VMF text, number of entities): a world block whose classname is a spelling of worldspawn and
+    which often carries a targetname; entities with names from the hostile-case pool (duplicates and
+    case variants of one another on purpose), some without targetname, some hidden."""
+    sp = ['targetname'] if easy else KEY_SP
+    wname = rng.choice(names + ['']) if rng.random() < 0.7 else None
+    text = 'versioninfo\n{\n\t"formatversion" "100"\n}\n'
+    text += ent_block('world', 1, rng.choice(['worldspawn'] if easy else ['worldspawn', 'WorldSpawn', 'WORLDSPAWN']),
+                      rng.choice(sp) if wname is not None else '', wname or '')
+    n = rng.randint(0, 6)
+    pool = [rng.choice(names) for _ in range(2)] + ([wname] if wname else [])
+    for i in range(n):
+        r = rng.random()
+        if r < 0.25:
+            tk, name = '', ''
+        else:
+            name = rng.choice(pool) if r < 0.7 else rng.choice(names + [''])
+            if not easy and rng.random() < 0.3:
+                name = name.swapcase()
+            tk = rng.choice(sp)
+        text += ent_block('entity', i + 2, rng.choice(classes), tk, name, hidden=rng.random() < 0.3)
+    return text, n
+
+
 def random_parse(out: hlib.RecWriter, rng: random.Random, n_docs: int, stats: dict) -> None:
-    """Build a map, export it, parse it back: the indexes of the parsed map straight after parse()."""
-    for _ in range(n_docs):
-        src = VMF()
-        for _ in range(rng.randint(0, 6)):
-            kw = {}
-            if rng.random() < 0.7:
-                kw[rng.choice(KEY_SP)] = rng.choice([n for n in NAME_POOL if '"' not in n])
-            src.create_ent(rng.choice(CLASS_POOL), **kw)
-        text = src.export()
-        vmf = VMF.parse(Keyvalues.parse(text))
-        w = World([f'e{i + 1}' for i in range(len(vmf.entities))])
-        w.maps = {'m1': vmf}
-        w.ents = {'w1': vmf.spawn}
-        w.home = {'w1': 'm1'}
-        for i, e in enumerate(vmf.entities):
-            w.ents[f'e{i + 1}'] = e
-            w.home[f'e{i + 1}'] = 'm1'
-        proj = project_single(w)
-        out.write({'k': 'state', 'post': proj, 'F': w.fold_table(),
-                   'sig': {'kind': 'parse', 'action': 'parse'}, 'doc': text})
+    """The indexes of a parsed map straight after parse(): documents written by export() of a built map,
+    and hand-written ones whose world block is named."""
+    for i in range(n_docs):
+        if i % 2:
+            text, _ = random_document(rng, NAME_POOL, CLASS_POOL, False)
+        else:
+            src = VMF()
+            for _ in range(rng.randint(0, 6)):
+                kw = {}
+                if rng.random() < 0.7:
+                    kw[rng.choice(KEY_SP)] = rng.choice([n for n in NAME_POOL if '"' not in n])
+                src.create_ent(rng.choice(CLASS_POOL), **kw)
+            if rng.random() < 0.5:
+                src.spawn['targetname'] = rng.choice(NAME_POOL)
+            text = src.export()
+        w = parsed_world(text)
+        parse_record(w, text, out, stats)
         stats['parsed'] = stats.get('parsed', 0) + 1
+
+
+def start_from_docs(w: World, docs: dict) -> None:
+    nxt = 0
+    for m in sorted(docs):
+        vmf = VMF.parse(Keyvalues.parse(docs[m]))
+        w.maps[m] = vmf
+        w.ents[SPAWN[m]] = vmf.spawn
+        for e in vmf.entities:
+            w.ents[w.slots[nxt]] = e
+            w.home[w.slots[nxt]] = m
+            nxt += 1
+
+
+def parsed_world(text: str) -> World:
+    vmf = VMF.parse(Keyvalues.parse(text))
+    w = World([f'e{i + 1}' for i in range(len(vmf.entities))])
+    w.maps = {'m1': vmf}
+    w.ents = {'w1': vmf.spawn}
+    w.home = {'w1': 'm1'}
+    for i, e in enumerate(vmf.entities):
+        w.ents[f'e{i + 1}'] = e
+        w.home[f'e{i + 1}'] = 'm1'
+    return w
 
 
 def project_single(w: World) -> dict:
@@ -510,34 +661,41 @@ def main() -> None:
         rec = rp['record']
         out = hlib.RecWriter(sys.argv[3])
         if rec['k'] == 'state':
-            rec = dict(rec)
-            rec['sig'] = {'kind': 'parse', 'action': 'parse'}
-            vmf = VMF.parse(Keyvalues.parse(rec['doc']))
-            w = World([f'e{i + 1}' for i in range(len(vmf.entities))])
-            w.maps = {'m1': vmf}
-            w.ents = {'w1': vmf.spawn}
-            w.home = {'w1': 'm1'}
-            for i, e in enumerate(vmf.entities):
-                w.ents[f'e{i + 1}'] = e
-                w.home[f'e{i + 1}'] = 'm1'
-            out.write({'k': 'state', 'post': project_single(w), 'F': w.fold_table(), 'sig': rec['sig'], 'doc': rec['doc']})
+            if 'docs' in rec:
+                w = World([f'e{i}' for i in range(1, 21)])
+                start_from_docs(w, rec['docs'])
+                parse_record(w, json.dumps(rec['docs']), out, stats, {'docs': rec['docs']})
+            elif 'state' in rec:
+                w = World(slots_of(rec['state']))
+                text = w.build(rec['state'], CONCRETE[rec['tab']], 'parse', rec.get('variant', 0))
+                parse_record(w, text, out, stats, {'state': rec['state'], 'tab': rec['tab'], 'variant': rec.get('variant', 0)})
+            else:
+                parse_record(parsed_world(rec['doc']), rec['doc'], out, stats)
         else:
             tab = CONCRETE[rec['tab']] if isinstance(rec.get('tab'), int) else (rec.get('tab') or {})
             src = rp.get('kind', 'edge')
             if 'hist' in rec:
-                w = World(sorted({a.get(f) for a in rec['hist'] for f in ('x', 'p') if a.get(f)}
-                                 | {x for a in rec['hist'] for x in a.get('xs', [])}
-                                 | {a['mut']['x'] for a in rec['hist'] if 'mut' in a} - set(SPAWN.values())))
-                for a in rec['hist'][:-1]:
+                hist = rec['hist']
+                if hist and hist[0].get('op') == 'parse_docs':
+                    w = World([f'e{i}' for i in range(1, 21)])
+                    start_from_docs(w, hist[0]['docs'])
+                else:
+                    w = World(sorted({a.get(f) for a in hist for f in ('x', 'p') if a.get(f)}
+                                     | {x for a in hist for x in a.get('xs', [])}
+                                     | {a['mut']['x'] for a in hist if 'mut' in a} - set(SPAWN.values())))
+                for a in hist[:-1]:
+                    if a['op'] == 'parse_docs':
+                        continue
                     if a['op'] == 'iter':
                         w.do_iter(a, tab)
                     else:
                         w.do(a, tab)
-                step(w, rec['hist'][-1], tab, src, out, hist=rec['hist'])
+                step(w, hist[-1], tab, src, out, hist=hist)
             else:
+                how, n = rec.get('built') or ['api', 0]
                 w = World(slots_of(rec['state']))
-                w.build(rec['state'], tab)
-                step(w, rec['raw'], tab, src, out, state=rec['state'])
+                w.build(rec['state'], tab, how, variant=n)
+                step(w, rec['raw'], tab, src, out, state=rec['state'], built=[how, n])
     else:
         raise SystemExit(2)
     out.close()
